@@ -1,6 +1,7 @@
 --------------------------- MODULE TopicsTraceMC ---------------------------
 EXTENDS TopicsTrace
 MCTopicOrder == <<"t1", "t2">>
+MCTopicOrder3 == <<"t1", "t2", "t3">>
 MCIdOrder3 == <<"a", "b", "c">>
 MCIdOrder4 == <<"a", "agg", "b", "c">>
 =============================================================================
